@@ -674,6 +674,8 @@ class AccSignal(Signal):
     def generate_displacement_and_velocity_series(self, trap=True):
         """Calculates the displacement and velocity time series"""
         self._velocity, self._displacement = sd.calc_velo_and_disp_from_accel_arr(self.values, self.dt, trap=trap)
+        self._cached_params.pop("pgv", None)
+        self._cached_params.pop("pgd", None)
         self._cached_disp_and_velo = True
 
     @property
